@@ -15,6 +15,8 @@ import Ymq.Props.C19BM
 #print axioms Ymq.C19BM.bm_no_panic
 #print axioms Ymq.C19BM.bm_big_no_panic
 #print axioms Ymq.C19BM.bm_no_panic_recurrence
+#print axioms Ymq.C19BM.bm_minimal
+#print axioms Ymq.C19BM.bm_big_minimal
 #print axioms Ymq.C19BM.bm_panic_empty
 #print axioms Ymq.C19BM.bm_panic_single_term
 #print axioms Ymq.C19BM.bm_panic_zero_constant_term
